@@ -48,6 +48,10 @@ def run(ctx):
         for _ in range(2 if ctx.quick() else 8):
             cfg = tu.gen_config(ctx.rng, joint=False)
             cfg.update({"K": 3, "limit": min(cfg["limit"], 4), "lens": [cfg["W"] - 1 + ctx.rng.randint(70, 120)]})
+            if len(cfgs) % 2 == 0:
+                # more clusters than regimes: the mixture-model start depends on the generator state, so a result that
+                # is (wrongly) a function of an earlier call on the same data shows
+                cfg.update({"K": 4, "regimes": 2})
             cfgs.append(cfg)
         cfgs.append(tu.gen_config(ctx.rng, joint=True))
 
@@ -83,7 +87,9 @@ def run(ctx):
         # then fit the configuration itself and compare with the same call made in a fresh interpreter
         truth = tu.fresh_digest(cfg, common.REPO)
         nw_ = cfg["N"] * cfg["W"]
-        for sib in (dict(cfg, data_factor=1.0 + 2.0 ** -20), dict(cfg, biased=not cfg["biased"]),
+        for sib in (# the SAME data and hyper-parameters fitted from OTHER generator states first (a user trying seeds)
+                    dict(cfg, seed=(cfg["seed"] * 31 + 7) % 2 ** 31), dict(cfg, seed=(cfg["seed"] * 17 + 3) % 2 ** 31),
+                    dict(cfg, data_factor=1.0 + 2.0 ** -20), dict(cfg, biased=not cfg["biased"]),
                     # a sibling call that FAILS inside the main loop (penalty matrix of the wrong shape: the solver task
                     # raises IndexError, the loop's error path runs) — later calls must not notice
                     dict(cfg, lam=np.ones((nw_ - 1, nw_ - 1)))):
